@@ -74,6 +74,20 @@ pub fn vary_field(base: &VoiceSpec, field: &str, pick: usize) -> Option<VoiceSpe
         "frame-period" => v.frame_period = base.frame_period + 1 + pick % 3,
         "gv-off-context" => v.gv_off_context.push("*-xx+*".into()),
         "fullcontext-version" => v.fullcontext_version = "1.1".into(),
+        "option" if pick % 3 == 1 => {
+            // same number of entries, one meaningful entry (non-zero stage or log gain) replaced by a
+            // copy of another one: every entry of the odd voice also occurs in the others' list
+            let o = &mut v.streams[0].options;
+            let victim = o.iter().position(|x| (x.starts_with("GAMMA=") && x != "GAMMA=0") || x == "LN_GAIN=1")?;
+            let donor = (0..o.len()).find(|i| *i != victim)?;
+            o[victim] = o[donor].clone();
+        }
+        "option" if pick % 3 == 2 => {
+            // one meaningful entry removed
+            let o = &mut v.streams[0].options;
+            let victim = o.iter().position(|x| (x.starts_with("GAMMA=") && x != "GAMMA=0") || x == "LN_GAIN=1")?;
+            o.remove(victim);
+        }
         "option" => {
             let o = &mut v.streams[0].options;
             if let Some(a) = o.iter_mut().find(|x| x.starts_with("ALPHA=")) {
